@@ -264,3 +264,37 @@ N("C10", "dead second If removed", (CO, "    construct.If(construct.this.clock_s
 N("C10", "offset written with unary minus", (CO, "minutes=ctx.deviation * -1", "minutes=-ctx.deviation"))
 N("C10", "microseconds via keyword", (CO, "            ctx.hundredths_of_second * 10000\n            if ctx.hundredths_of_second is not None\n            else 0,\n            datetime.timezone(datetime.timedelta(minutes=ctx.deviation * -1))\n            if ctx.deviation is not None\n            else None,\n",
                                        "            microsecond=10000 * ctx.hundredths_of_second\n            if ctx.hundredths_of_second is not None\n            else 0,\n            tzinfo=datetime.timezone(datetime.timedelta(minutes=ctx.deviation * -1))\n            if ctx.deviation is not None\n            else None,\n"))
+
+# ------------------------------------------------------------------------------------------------ C07
+AI = "aidon"
+S("C07", "Long unsigned", "R1", (CO, "Long = construct.Int16sb", "Long = construct.Int16ub"))
+S("C07", "scaler parsed unsigned", "R1", (CO, "Integer = construct.Int8sb", "Integer = construct.Int8ub"))
+S("C07", "Decimal(10) ** -> 10 **", "R2", (CO, "lambda ctx: Decimal(10) ** ctx.exponent", "lambda ctx: 10 ** ctx.exponent"))
+S("C07", "float rounded to 2 digits", "R3", (AI, "                    else float(measure.content.value)\n", "                    else round(float(measure.content.value), 2)\n"))
+S("C07", "C.D.E built from groups 1-3", "R4", ("obis", 'return f"{self._groups[2]}.{self._groups[3]}.{self._groups[4]}"', 'return f"{self._groups[1]}.{self._groups[2]}.{self._groups[3]}"'))
+S("C07", "name lookup without membership test", "R4", (AI, "        if obis_group_cdr in obis_map.obis_name_map:\n            element_name = obis_map.obis_name_map[obis_group_cdr]\n        else:\n            element_name = obis_group_cdr\n\n        if isinstance(measure.content, str):",
+                                                      "        element_name = obis_map.obis_name_map[obis_group_cdr]\n\n        if isinstance(measure.content, str):"))
+S("C07", "text upper-cased", "R5", (AI, "            dictionary[element_name] = measure.content\n", "            dictionary[element_name] = measure.content.upper()\n"))
+S("C07", "manufacturer misspelt", "R5", (AI, 'obis_map.FIELD_METER_MANUFACTURER: "Aidon"', 'obis_map.FIELD_METER_MANUFACTURER: "AIDON"'))
+S("C07", "frame normaliser reads a different list", "R6", (AI, "return _normalize_parsed_items(frame.information.notification_body.list_items)", "return _normalize_parsed_items(frame.information.notification_body.list_items[1:])"))
+S("C07", "two names for one OBIS group", "R4", ("obis_map", 'FIELD_METER_TYPE: ["96.1.7", "96.1.1"],', 'FIELD_METER_TYPE: ["96.1.7", "96.1.1", "96.1.0"],'))
+N("C07", "int-or-float with swapped comparison", (AI, "                    if measure.content.unscaled_value == measure.content.value\n", "                    if measure.content.value == measure.content.unscaled_value\n"))
+N("C07", "name lookup through dict.get", (AI, "        if obis_group_cdr in obis_map.obis_name_map:\n            element_name = obis_map.obis_name_map[obis_group_cdr]\n        else:\n            element_name = obis_group_cdr\n\n        if isinstance(measure.content, str):",
+                                            "        element_name = obis_map.obis_name_map.get(obis_group_cdr, obis_group_cdr)\n\n        if isinstance(measure.content, str):"))
+
+# ------------------------------------------------------------------------------------------------ C08
+KA = "kaifa"
+S("C08", "two names swapped in the three-phase layout", "R1", (KA, "        obis_map.FIELD_CURRENT_L2,\n        obis_map.FIELD_CURRENT_L3,\n        obis_map.FIELD_VOLTAGE_L1,", "        obis_map.FIELD_CURRENT_L3,\n        obis_map.FIELD_CURRENT_L2,\n        obis_map.FIELD_VOLTAGE_L1,"))
+S("C08", "single-phase voltage slice [10:11] -> [11:12]", "R1", (KA, "+ item_order_list_3_three_phase[10:11]", "+ item_order_list_3_three_phase[11:12]"))
+S("C08", "voltage L2 scale -1 -> -2", "R2", (KA, "    obis_map.FIELD_VOLTAGE_L2: -1,", "    obis_map.FIELD_VOLTAGE_L2: -2,"))
+S("C08", "rounding to 0 digits", "R3", (KA, "                scaled_value = round(measure.value * (10**scale), abs(scale))\n                dictionary[element_name] = scaled_value\n            else:\n                dictionary[element_name] = measure.value\n\n    return dictionary\n\n\ndef _normalize_parsed_obis",
+                                          "                scaled_value = round(measure.value * (10**scale), 0)\n                dictionary[element_name] = scaled_value\n            else:\n                dictionary[element_name] = measure.value\n\n    return dictionary\n\n\ndef _normalize_parsed_obis"))
+S("C08", "multiplication without rounding", "R3", (KA, "                scaled_value = round(measure.value * (10**scale), abs(scale))\n                dictionary[element_name] = scaled_value\n            else:\n                dictionary[element_name] = measure.value\n\n    return dictionary\n\n\ndef _normalize_parsed_obis",
+                                                   "                scaled_value = measure.value * (10**scale)\n                dictionary[element_name] = scaled_value\n            else:\n                dictionary[element_name] = measure.value\n\n    return dictionary\n\n\ndef _normalize_parsed_obis"))
+S("C08", "layout selected by >=", "R1", (KA, "(x for x in _field_order_lists if len(x) == len(list_items)), None", "(x for x in _field_order_lists if len(x) >= len(list_items)), None"))
+S("C08", "double-long-unsigned parsed signed", "R5", (CO, "DoubleLongUnsigned = construct.Int32ub", "DoubleLongUnsigned = construct.Int32sb"))
+S("C08", "dispatch swapped", "R5", (KA, "    list_type = frame.information.notification_body.type\n    if list_type == KaifaBodyType.VALUE_ELEMENTS:\n        return _normalize_parsed_value_elements(frame)", "    list_type = frame.information.notification_body.type\n    if list_type == KaifaBodyType.VALUE_ELEMENTS:\n        return _normalize_parsed_obis_elements(frame)"))
+S("C08", "OBIS layout scales voltages like currents", "R2", (KA, "            scale = _FIELD_SCALING.get(element_name, None)\n            if scale and isinstance(measure.value, int):\n                scaled_value = round(measure.value * (10**scale), abs(scale))\n                dictionary[element_name] = scaled_value\n            else:\n                dictionary[element_name] = measure.value\n\n    return dictionary\n\n\ndef normalize_parsed_frame",
+    "            scale = -3 if element_name in _FIELD_SCALING else None\n            if scale and isinstance(measure.value, int):\n                scaled_value = round(measure.value * (10**scale), abs(scale))\n                dictionary[element_name] = scaled_value\n            else:\n                dictionary[element_name] = measure.value\n\n    return dictionary\n\n\ndef normalize_parsed_frame"))
+N("C08", "scaling by division", (KA, "                scaled_value = round(measure.value * (10**scale), abs(scale))\n                dictionary[element_name] = scaled_value\n            else:\n                dictionary[element_name] = measure.value\n\n    return dictionary\n\n\ndef _normalize_parsed_obis",
+                                    "                scaled_value = measure.value / (10 ** (-scale))\n                dictionary[element_name] = scaled_value\n            else:\n                dictionary[element_name] = measure.value\n\n    return dictionary\n\n\ndef _normalize_parsed_obis"))
